@@ -43,6 +43,7 @@ type vestEnv struct {
 	// an accepted proposal executes them); only used when govOwner is set
 	govKey     chain.Key
 	govOwner   bool
+	niceFees   bool // fees are multiples of 20 (see genOp0)
 	owners     []chain.Key
 	strangers  []chain.Key
 	keys       map[string]chain.Key
@@ -244,7 +245,7 @@ type vOp struct {
 	start, end      int64
 	denoms          []string
 	custom          bool
-	respelled       bool // addresses of the message are in upper-case bech32
+	respelled       bool   // addresses of the message are in upper-case bech32
 	gas             uint64 // explicit gas limit (0 = ample)
 	desc            string
 }
@@ -353,6 +354,10 @@ func (e *vestEnv) genOp0(r *rand.Rand, now time.Time) vOp {
 	var fee sdk.Coins
 	if r.Intn(3) == 0 {
 		fee = sdk.NewCoins(sdk.NewCoin(vDenom, sdk.NewInt(int64(1+r.Intn(5000)))))
+		if e.niceFees {
+			// multiples of 20: with 5% shares the distributor's books hit whole numbers exactly
+			fee = sdk.NewCoins(sdk.NewCoin(vDenom, sdk.NewInt(int64(20*(1+r.Intn(3))))))
+		}
 		if r.Intn(3) == 0 {
 			// fees may be paid in any denomination the payer holds
 			fee = sdk.NewCoins(sdk.NewCoin("foo", sdk.NewInt(int64(1+r.Intn(500000)))))
@@ -426,7 +431,12 @@ func (e *vestEnv) genOp0(r *rand.Rand, now time.Time) vOp {
 		if r.Intn(10) == 0 {
 			en = st - 1
 		}
-		msg := &vesttypes.MsgCreateVestingAccount{FromAddress: owner.Bech(), ToAddress: to, Amount: coins, StartTime: st, EndTime: en}
+		msgCoins := coins
+		if len(coins) > 1 && r.Intn(2) == 0 {
+			// the message may list its coins in any order (nothing in front of the handler sorts them)
+			msgCoins = sdk.Coins{coins[1], coins[0]}
+		}
+		msg := &vesttypes.MsgCreateVestingAccount{FromAddress: owner.Bech(), ToAddress: to, Amount: msgCoins, StartTime: st, EndTime: en}
 		return vOp{kind: "create-account", signer: owner, msg: msg, fee: fee, owner: owner.Bech(), to: to, coins: coins, start: st, end: en, custom: true, desc: fmt.Sprintf("create-account ->%s %s [%d,%d]", short(to, 10), coins, st, en)}
 	case x < 84 && len(e.cvaKeys) > 0: // split / move
 		from := e.cvaKeys[r.Intn(len(e.cvaKeys))]
